@@ -20,12 +20,19 @@ pub fn assert_there_are_no_top_level_name_clashes(file: &File) -> Result<(), Kik
     Ok(())
 }
 
-/// This set contains:
+/// These sets contain:
 /// 1. Nonterminal names
 /// 2. Terminal variant names
 ///
-/// It does **not** contain the terminal enum name.
-pub struct DefinedSymbols(pub HashSet<String>);
+/// They do **not** contain the terminal enum name.
+///
+/// The two kinds of names are kept apart, so that a nonterminal
+/// reference cannot be satisfied by a terminal of the same name
+/// (or vice versa).
+pub struct DefinedSymbols {
+    pub nonterminals: HashSet<String>,
+    pub terminals: HashSet<String>,
+}
 
 /// This function validates that:
 /// 1. There are no duplicate nonterminal names.
@@ -38,10 +45,25 @@ pub struct DefinedSymbols(pub HashSet<String>);
 ///
 /// This function does **not** validate capitalization.
 pub fn get_defined_symbols(file: &File) -> Result<DefinedSymbols, KikiErr> {
-    let seen = get_defined_symbol_positions(file)?;
-    Ok(DefinedSymbols(
-        seen.into_iter().map(|(name, _)| name).collect(),
-    ))
+    get_defined_symbol_positions(file)?;
+    let nonterminals = file
+        .items
+        .iter()
+        .filter_map(|item| match item {
+            FileItem::Struct(struct_def) => Some(struct_def.name.name.clone()),
+            FileItem::Enum(enum_def) => Some(enum_def.name.name.clone()),
+            FileItem::Start(_) | FileItem::Terminal(_) => None,
+        })
+        .collect();
+    let terminals = get_unvalidated_terminal_enum(file)?
+        .variants
+        .iter()
+        .map(|variant| variant.name.name.to_string())
+        .collect();
+    Ok(DefinedSymbols {
+        nonterminals,
+        terminals,
+    })
 }
 
 fn get_defined_symbol_positions(file: &File) -> Result<HashMap<String, ByteIndex>, KikiErr> {
